@@ -13,7 +13,7 @@ DEPENDS = ("sinter",)
 
 # a middleware's request/endpoint/render attribute: None or a callable
 TMaybeFunc = TObj('MaybeFunc', inv=lambda f: z3.Or(f == Z.NONE, sig_facts(f)))
-MW_TY = Z.func('MW_TY', Z.Obj, Z.Obj)      # type(mw)
+MW_TY = Z.func('type_obj', Z.Obj, Z.Obj)      # type(mw), the engine's model of type()
 
 
 def mw_eq(ctx, a, b):
@@ -140,6 +140,7 @@ def register(E):
         prop=['C01', 'C03', 'C04']))
 
     register_checks(E)
+    register_merge(E)
     CH_FUNCS = E.ghost['CH_FUNCS']
 
     @E.spec('PR_EP_FUNCS')
@@ -264,3 +265,74 @@ def register_checks(E):
                         'builtins.IndexError': 'not forall_int(0, len(middlewares), lambda j: not BADMW(middlewares[j]))'},
         returns=TBool,
         prop=['C04']))
+
+
+# ---- merge_middlewares (C03, C10, C13) ------------------------------------------------
+_HU = Z.const('H0:MW.unique', z3.ArraySort(Z.Obj, Z.Bool))
+_HR = Z.const('H0:MW.reorderable', z3.ArraySort(Z.Obj, Z.Bool))
+SeqO = Z.SeqSort(Z.Obj)
+_s = z3.Const('mm!s', SeqO)
+_t = z3.Const('mm!t', Z.Obj)
+HASTY = z3.RecFunction('HASTY', SeqO, Z.Obj, Z.Bool)
+z3.RecAddDefinition(HASTY, [_s, _t],
+                    z3.If(z3.Length(_s) <= 0, z3.BoolVal(False),
+                          z3.Or(HASTY(z3.Extract(_s, 0, z3.Length(_s) - 1), _t),
+                                MW_TY(_s[z3.Length(_s) - 1]) == _t)))
+_old = z3.Const('mm!old', SeqO)
+_new = z3.Const('mm!new', SeqO)
+_mi = z3.Int('mm!i')
+MERGE = z3.RecFunction('MERGE', SeqO, SeqO, Z.Int, SeqO)
+_cur = _old[_mi - 1]
+_prev = MERGE(_old, _new, _mi - 1)
+_dup = z3.And(z3.Select(_HU, _cur), HASTY(_prev, MW_TY(_cur)))
+z3.RecAddDefinition(MERGE, [_old, _new, _mi],
+                    z3.If(_mi <= 0, _new, z3.If(_dup, _prev, z3.Concat(_prev, z3.Unit(_cur)))))
+BADMERGE = z3.RecFunction('BADMERGE', SeqO, SeqO, Z.Int, Z.Bool)
+z3.RecAddDefinition(BADMERGE, [_old, _new, _mi],
+                    z3.If(_mi <= 0, z3.BoolVal(False),
+                          z3.Or(BADMERGE(_old, _new, _mi - 1),
+                                z3.And(_dup, z3.Not(z3.Select(_HR, _cur))))))
+
+
+def mw_contains(ctx, seqz, x):
+    return HASTY(seqz, MW_TY(x.z))
+
+
+def register_merge(E):
+    E.opaque['MW'].contains = mw_contains
+
+    def sq(I, ctx, v):
+        return I._as_seq(ctx, I.resolve(ctx, v), TMW)[0]
+
+    @E.spec('MERGE')
+    def MERGE_(I, ctx, old, new, i):
+        return VSeq(MERGE(sq(I, ctx, old), sq(I, ctx, new), TInt.to_z(i)), TMW)
+
+    @E.spec('BADMERGE')
+    def BADMERGE_(I, ctx, old, new, i):
+        return VBool(BADMERGE(sq(I, ctx, old), sq(I, ctx, new), TInt.to_z(i)))
+
+    E.add_contract(Contract(
+        'clastic.middleware.core.merge_middlewares',
+        params={'old': TSeq(TMW), 'new': TSeq(TMW)},
+        loops={('mw', 'old'): LoopSpec(inv=['merged == MERGE(at_entry(old), new, _i)',
+                                            'not BADMERGE(at_entry(old), new, _i)'],
+                                       modifies=['merged'])},
+        ensures=['result == MERGE(old, new, len(old))', 'not BADMERGE(old, new, len(old))'],
+        raises={'builtins.ValueError': None},
+        raises_local={'builtins.ValueError': 'BADMERGE(old, new, _i + 1)'},
+        returns=TList(TMW),
+        prop=['C03', 'C10', 'C13']))
+
+    E.add_contract(Contract(
+        'clastic.middleware.core.Middleware.__eq__',
+        params={'self': TMW, 'other': TMW},
+        ensures=['result == MW_SAME_TYPE(self, other)'], returns=TBool, prop=['C03']))
+    E.add_contract(Contract(
+        'clastic.middleware.core.Middleware.__ne__',
+        params={'self': TMW, 'other': TMW},
+        ensures=['result == (not MW_SAME_TYPE(self, other))'], returns=TBool, prop=['C03']))
+
+    @E.spec('MW_SAME_TYPE')
+    def MW_SAME_TYPE(I, ctx, a, b):
+        return VBool(MW_TY(a.z) == MW_TY(b.z))
